@@ -14,13 +14,18 @@ import contextlib
 import itertools
 import math
 import os
+import sys
 from fractions import Fraction
 
 import c05_gen
 import c05_oracle as orc
+import c05_size
 from common.framework import PropertyCheck, frac_str
 
 NEG = float("-inf")
+# runs of hundreds of frames: the exact masses are rationals with thousands of digits
+if hasattr(sys, "set_int_max_str_digits"):
+    sys.set_int_max_str_digits(0)
 PINNED_MODEL = bool(os.environ.get("VERIF_C05_PINNED_MODEL"))  # compare against the model of the unrepaired code
 # correspondence tolerance (implementation vs. the exact model replaying the implementation's own frame
 # probabilities): rounding of the search itself over a whole run; 32 eps for the half-precision dtypes
@@ -41,6 +46,75 @@ def eff_dtype(case):
     if lm and lm.get("dtype") and Fraction(lm["beta"]) != 0 and orc.EPS[lm["dtype"]] > orc.EPS[d]:
         return lm["dtype"]
     return d
+
+
+def n_frames(case):
+    return len(case["logits"]) if case["kind"] == "module" else len(case["frames"])
+
+
+def tol_of(case):
+    """correspondence tolerance of a tolerance-stream run: `TOL` for the runs of up to 8 frames it was
+    calibrated on; a run of T frames rounds about 6 times per frame along every alignment (two products, the sums
+    of the recursion, the softmax / fusion before it), so long runs get (6 T + 8) eps where that is more"""
+    d = eff_dtype(case)
+    T = n_frames(case)
+    return TOL[d] if T <= 8 else max(TOL[d], (6 * T + 8) * orc.EPS[d])
+
+
+def judge_of(case):
+    """How a case is judged (explicit in the case, so that a replay is judged the same way; absent = in full):
+    `model`   — the Lean array model replays every call (correspondence); False for the LARGEST size classes,
+                which are judged by the Lean specification and the property's own predicates only;
+    `elements`— the batch elements that go through Lean (None = all; large batches: a sample - every element is
+                still judged by the predicates that need no oracle: distinct prefixes, order, batched = alone, ...);
+    `dp`      — true mass of every reported prefix by the forward algorithm (off for long tolerance runs, where
+                exact arithmetic on 300-frame products of 53-bit numbers costs minutes)."""
+    j = case.get("judge") or {}
+    return {"model": j.get("model", True), "elements": j.get("elements"), "dp": j.get("dp", True)}
+
+
+ENUM_PREFIXES = 400     # per-prefix tables list ALL prefixes up to the frame index while there are at most this many
+
+
+def count_prefixes(V, t):
+    n, x = 0, 1
+    for _ in range(t + 1):
+        n += x
+        x *= V
+        if n > 10 ** 9:
+            break
+    return n
+
+
+def prefix_closure(ps):
+    out = set()
+    for p in ps:
+        p = tuple(p)
+        for j in range(len(p) + 1):
+            out.add(p[:j])
+    return out
+
+
+def reported_prefixes(res):
+    """the prefixes a result reports with a number (not -inf / NaN), each once"""
+    seen, out = set(), []
+    for p, x in zip(res["prefixes"], res["probs"]):
+        if x in ("-inf", "nan", "inf") or tuple(p) in seen:
+            continue
+        seen.add(tuple(p))
+        out.append(list(p))
+    return out
+
+
+def table_prefixes(V, t, slot_prefixes, closure):
+    """The prefixes whose extension scores the specification may ask for at frame `t`.  Small vocabularies /
+    short runs: every prefix of length <= t (as the alignment enumeration needs).  Otherwise: the prefixes the
+    beam holds when the frame is read (the recursion reads `ext q v` only for a beam entry `q`) and the prefixes
+    of the reported prefixes (the forward algorithm of the true mass reads `ext (p[:j]) p[j]`)."""
+    if count_prefixes(V, t) <= ENUM_PREFIXES:
+        return [p for L in range(t + 1) for p in itertools.product(range(V), repeat=L)]
+    need = {tuple(p) for p in slot_prefixes} | {q for q in closure if len(q) <= t}
+    return sorted(need, key=lambda q: (len(q), q))
 
 
 def mix_slack(case, beta, factor):
@@ -567,15 +641,26 @@ class C05(PropertyCheck):
         n_b, n_c, n_d = (150, 150, 150) if tier == "quick" else (3000, 3000, 3000) if tier == "thorough" else (6000, 6000, 5000)
         n_h = 70 if tier == "quick" else 1200 if tier == "thorough" else 2500
         gens = [self.gen_module_exact(rng, n_b), self.gen_advance(rng, n_c), self.gen_tol(rng, n_d),
-                self.gen_history_tol(rng, n_h), self.gen_history_advance(rng, n_h), self.gen_state_advance(rng, n_h)]
+                self.gen_history_tol(rng, n_h), self.gen_history_advance(rng, n_h), self.gen_state_advance(rng, n_h),
+                self.gen_size(rng, tier)]
         # interleave
         alive = list(gens)
         while alive:
             for g in list(alive):
                 try:
-                    yield next(g)
+                    c = next(g)
+                    if c is not None:       # (the size-class stream yields a case only every few rounds)
+                        yield c
                 except StopIteration:
                     alive.remove(g)
+
+    def gen_size(self, rng, tier):
+        """SIZE CLASSES (c05_size): a few cases per run with a wide beam / a large vocabulary / hundreds of frames /
+        a large batch, for every entry point; spread over the run (one every 80 cases of the other streams)"""
+        for c in c05_size.roster(self, rng, tier):
+            yield c
+            for _ in range(6 if tier == "quick" else 2):
+                yield None
 
     # ---- options of the entry points that are orthogonal to the search itself
     LAYOUTS = [None, None, None, "perm", "perm2", "wide", "step2"]
@@ -727,30 +812,36 @@ class C05(PropertyCheck):
                 case["widths"] = widths
             yield case
 
-    def gen_state_advance(self, rng, n):
+    def gen_state_advance(self, rng, n, size=None):
         """the step function started from an arbitrary well-formed state handed over by the caller: distinct
         blank-free prefixes in the real slots (chains with missing links on purpose), a correct prefix matrix
         on the real slots, slots without a prefix (-inf mass) carrying junk tokens / lengths / matrix rows,
-        token buffer taller than the longest prefix; then 1-3 calls, the width may change between calls."""
+        token buffer taller than the longest prefix; then 1-3 calls, the width may change between calls.
+        `size` (size classes, c05_size): {V, Kp, S, width} - a state of Kp slots over a vocabulary of V, most of
+        them real (many chains), probabilities on the grid k/64."""
         for _ in range(n):
             V = rng.choice([1, 2, 2, 3])
             S = rng.choice([0, 1, 2, 3, 3, 4])
             Kp = rng.choice([1, 2, 3, 4, 5, 6])
             dtype = rng.choice(["f32", "f64"])
             den = 16
+            chains, strays = rng.choice([1, 1, 2]), rng.choice([0, 1, 2])
+            if size:
+                V, S, Kp, den = size["V"], size["S"], size["Kp"], 64
+                chains, strays = Kp, Kp // 3
             # real prefixes: subsets of the prefixes of one or two long strings (chains with gaps) + strays
             pool = set()
-            for _c in range(rng.choice([1, 1, 2])):
+            for _c in range(chains):
                 L = rng.randint(0, S)
                 r = tuple(rng.randrange(V) for _ in range(L))
                 for j in range(L + 1):
                     if rng.random() < 0.6:
                         pool.add(r[:j])
-            for _c in range(rng.choice([0, 1, 2])):
+            for _c in range(strays):
                 pool.add(tuple(rng.randrange(V) for _ in range(rng.randint(0, S))))
             pool = sorted(pool)
             rng.shuffle(pool)
-            n_real = min(len(pool), rng.randint(1, Kp))
+            n_real = min(len(pool), rng.randint(1, Kp) if not size else rng.randint(Kp - Kp // 4, Kp))
             real = pool[:n_real]
             slots = real + [None] * (Kp - n_real)
             rng.shuffle(slots)
@@ -789,6 +880,10 @@ class C05(PropertyCheck):
             T = rng.choice([1, 1, 2, 3])
             frames = []
             for t in range(T):
+                if size:
+                    parts = self.grid_row(rng, V, den)
+                    frames.append({"tok": parts[:V], "blank": parts[V]})
+                    continue
                 parts = [rng.choice([0, 0, 1, 2, 3, 4, 5, 6, 8]) for _ in range(V + 1)]
                 while sum(parts) > 16:
                     parts[rng.randrange(V + 1)] //= 2
@@ -798,10 +893,32 @@ class C05(PropertyCheck):
             width = rng.choice([1, 2, 3, 4, 5, 6, 8, 12, 30])
             widths = [width] * T if rng.random() < 0.6 else \
                 [rng.choice([1, 2, 3, 4, 5, 6, 8, 12]) for _ in range(T)]
-            yield {"kind": "advance", "stream": "exact", "V": V, "width": widths[-1], "widths": widths, "dtype": dtype,
-                   "denom": den, "frames": frames, "ext_seed": rng.choice([None, rng.randrange(1 << 16)]), "lm": None,
-                   "lens": None, "gen": "state",
-                   "init": {"tm1": S, "y": y, "last": last, "lens": lens, "nb": nb, "b": b, "is_prefix": isp}}
+            if size:
+                widths = [size["width"]] * T if rng.random() < 0.6 else \
+                    [max(1, size["width"] + rng.choice([-40, -1, 0, 1, 7])) for _ in range(T)]
+                dtype = "f64"
+            case = {"kind": "advance", "stream": "exact", "V": V, "width": widths[-1], "widths": widths, "dtype": dtype,
+                    "denom": den, "frames": frames, "ext_seed": rng.choice([None, rng.randrange(1 << 16)]), "lm": None,
+                    "lens": None, "gen": "state",
+                    "init": {"tm1": S, "y": y, "last": last, "lens": lens, "nb": nb, "b": b, "is_prefix": isp}}
+            if size:
+                case["gen"] = "size"
+            yield case
+
+    @staticmethod
+    def grid_row(rng, V, den):
+        """one frame on the exact grid k/den for ANY vocabulary size: numerators of V tokens and the blank, zeros
+        allowed (most labels of a large vocabulary get nothing), total <= den, not all zero"""
+        live = rng.sample(range(V + 1), min(V + 1, rng.choice([1, 2, 3, 5, 8, 12, 20])))
+        parts = [0] * (V + 1)
+        for i in live:
+            parts[i] = rng.choice([1, 1, 2, 3, 4, 6, 8, 12])
+        while sum(parts) > den:
+            i = rng.choice(live)
+            parts[i] //= 2
+        if sum(parts) == 0:
+            parts[rng.choice(live)] = max(1, den // 4)
+        return parts
 
     def pick_width(self, rng, V, T):
         r = rng.random()
@@ -1010,16 +1127,20 @@ class C05(PropertyCheck):
             if y.shape[1:] != (N, width) or y_lens.shape != (N, width) or probs.shape != (N, width):
                 return {"shape_error": [list(y.shape), list(y_lens.shape), list(probs.shape)]}
             elements = []
+            judged = judge_of(case)["elements"]
             for n in range(N):
-                el = self.element_obs(rec.calls, n, lens_l[n], y, y_lens, probs, V)
-                # the same element searched alone on its own valid frames (other poison value, plain layout)
+                sampled = judged is None or n in judged
+                el = self.element_obs(rec.calls, n, lens_l[n], y, y_lens, probs, V, light=not sampled)
+                # the same element searched alone on its own valid frames (other poison value, plain layout);
+                # large batches of long inputs (N * T > 2000 step calls): the sampled elements only
                 ex1 = ()
                 if h0s is not None:
                     ex1 = (lm_initial_state(lm_spec, h0s[n: n + 1]),)
-                with poisoned_empty(0), torch.no_grad():
-                    ya, la, pa = search(logits.detach()[: lens_l[n], n: n + 1].contiguous(),
-                                        None if case["lens"] is None else torch.tensor([lens_l[n]]), *ex1)
-                el["alone"] = self.result_obs(ya, la, pa, 0)
+                if sampled or N * T <= 2000:
+                    with poisoned_empty(0), torch.no_grad():
+                        ya, la, pa = search(logits.detach()[: lens_l[n], n: n + 1].contiguous(),
+                                            None if case["lens"] is None else torch.tensor([lens_l[n]]), *ex1)
+                    el["alone"] = self.result_obs(ya, la, pa, 0)
                 # the LM state every slot of this element was given at each call (stateful harness LMs)
                 if lm_spec is not None and lm_spec.get("kind", "hash") != "hist" and len(state_log) == len(rec.calls) \
                         and not lm_spec.get("vocab"):
@@ -1056,7 +1177,7 @@ class C05(PropertyCheck):
                 isp = torch.tensor([init["is_prefix"]], dtype=torch.bool)
             fn = functional.ctc_prefix_search_advance
             rec = Recorder(fn)
-            tables = []
+            tables, held = [], []
             with poisoned_empty(poison_of(case)), ctx():
                 for t, fr in enumerate(frames):
                     Kp = nb.size(1)
@@ -1069,18 +1190,20 @@ class C05(PropertyCheck):
                         bl = bl.unsqueeze(0)
                     if grad:
                         ext.requires_grad_(True)
+                    held.append(prefs)
                     y, last, lens, (nb, b), isp, _src, _non = rec((ext, tok, bl), widths[t], (nb, b), y, last, lens, isp)
-                    if case["ext_seed"] is not None:
-                        if init is None:
-                            plist = [p for L in range(t + 1) for p in itertools.product(range(V), repeat=L)]
-                        else:
-                            plist = sorted(set(prefs))
-                        tables.append([[list(p), [frac_str(Fraction(x, den)) for x in
-                                                   self.adv_ext_row(case["ext_seed"], t, p, V, fr["tok"], den)]]
-                                       for p in plist])
             probs = (nb + b).detach()
             el = self.element_obs(rec.calls, 0, T, y.detach(), lens, probs, V)
             el["alone"] = None
+            if case["ext_seed"] is not None:
+                # the extension scores as a function of the prefix, for the specification: every prefix up to the
+                # frame index (small vocabularies), else the prefixes the slots hold + those of the reported ones
+                closure = prefix_closure(reported_prefixes(el["result"]))
+                for t, fr in enumerate(frames):
+                    plist = sorted(set(held[t])) if init is not None else table_prefixes(V, t, held[t], closure)
+                    tables.append([[list(p), [frac_str(Fraction(x, den)) for x in
+                                               self.adv_ext_row(case["ext_seed"], t, p, V, fr["tok"], den)]]
+                                   for p in plist])
             if case["ext_seed"] is not None:
                 el["ext_table"] = tables
             obs = {"elements": [el], "object": {
@@ -1198,7 +1321,8 @@ class C05(PropertyCheck):
         return {"prefixes": [[int(t) for t in y[: ln[k], n, k].tolist()] for k in range(K)], "lens": ln,
                 "probs": [frac_str(x) for x in probs[n].tolist()], "S": int(y.size(0))}
 
-    def element_obs(self, calls, n, len_n, y, y_lens, probs, V):
+    def element_obs(self, calls, n, len_n, y, y_lens, probs, V, light=False):
+        """`light` (elements of a large batch that do not go through Lean): without the K' x V extension scores"""
         steps = []
         for c in calls:
             width = c["width"]
@@ -1214,7 +1338,7 @@ class C05(PropertyCheck):
                 "in": state_obs(yi, lasti, lensi, nbi, bi, ispi, n),
                 "out": state_obs(yo, lasto, lenso, nbo, bo, ispo, n),
                 "src": src_l, "is_nonext": non_l, "sel": sel, "width": width,
-                "ext": [[frac_str(x) for x in row] for row in c["ext"][n].tolist()],
+                "ext": None if light else [[frac_str(x) for x in row] for row in c["ext"][n].tolist()],
                 "tok": [frac_str(x) for x in c["tok"][n].tolist()],
                 "blank": frac_str(c["blank"][n].item()),
             })
@@ -1230,7 +1354,7 @@ class C05(PropertyCheck):
             return
         V = case["V"]
         beta = float(Fraction(lm_spec["beta"]))
-        tol = TOL[eff_dtype(case)]
+        tol = tol_of(case)
         floor = floor_of(case)
 
         h0s = lm_spec.get("init")
@@ -1243,22 +1367,23 @@ class C05(PropertyCheck):
                 return lg.softmax(-1)
             return (beta * lg.log_softmax(-1)).exp()
 
-        def fused(tok, blank, prefix, n):
-            if lm_spec["valid"]:
-                return (1.0 - beta) * tok + beta * factor(prefix, n) * (1 - blank)
-            return factor(prefix, n) * tok
-
+        judged = judge_of(case)["elements"]
         for n, el in enumerate(obs["elements"]):
+            if judged is not None and n not in judged:
+                continue
             tables, dev, factors = [], [], []
+            closure = prefix_closure(reported_prefixes(el["result"]))
             for t, c in enumerate(calls[: lens_l[n]]):
                 tok, blank = c["tok"][n], c["blank"][n]
                 tab, ftab = {}, []
-                for L in range(t + 1):
-                    for p in itertools.product(range(V), repeat=L):
-                        tab[p] = [Fraction(float(x)) for x in fused(tok, blank, p, n).tolist()]
-                        ftab.append([list(p), [frac_str(x) for x in factor(p, n).tolist()]])
-                factors.append(ftab)
                 st = el["steps"][t]["in"]
+                held = [st["prefixes"][k] for k in range(len(st["nb"])) if not isinstance(tot_of(st, k), str)]
+                for p in table_prefixes(V, t, held, closure):
+                    fac = factor(p, n)
+                    tab[p] = [Fraction(float(x)) for x in (((1.0 - beta) * tok + beta * fac * (1 - blank))
+                                                           if lm_spec["valid"] else fac * tok).tolist()]
+                    ftab.append([list(p), [frac_str(x) for x in fac.tolist()]])
+                factors.append(ftab)
                 for k, p in enumerate(st["prefixes"]):
                     if isinstance(tot_of(st, k), str):
                         continue  # slot holds no prefix
@@ -1294,9 +1419,13 @@ class C05(PropertyCheck):
         fused = lm_spec is not None and Fraction(lm_spec["beta"]) != 0
         beta_q = Fraction(beta)             # the number the object holds (a python float or int), exactly
         h0s = (lm_spec or {}).get("init")
+        judged = judge_of(case)["elements"]
         for n, el in enumerate(obs["elements"]):
+            if judged is not None and n not in judged:
+                continue
             frames, tables, ftol, total = [], [], [], Fraction(1)
             factors = {}
+            closure = prefix_closure(reported_prefixes(el["result"]))
             for t in range(lens_l[n]):
                 row = [dec(x) for x in case["logits"][t][n]]
                 tok, blank = orc.frame_exact(row)
@@ -1305,13 +1434,14 @@ class C05(PropertyCheck):
                 total += orc.ext_units(row, sum(tok, Fraction(0)), bool(fused and lm_spec["valid"]), fused) + 4
                 if fused:
                     tab = []
-                    for L in range(t + 1):
-                        for p in itertools.product(range(V), repeat=L):
-                            if p not in factors:
-                                factors[p] = orc.lm_factor_exact(lm_row(lm_spec, V, p, 1 if h0s is None else h0s[n]),
-                                                                 lm_spec["valid"], beta_q)
-                            ext = orc.fuse_exact(tok, blank, factors[p], lm_spec["valid"], beta_q)
-                            tab.append([list(p), [frac_str(x) for x in ext]])
+                    st = el["steps"][t]["in"]
+                    held = [st["prefixes"][k] for k in range(len(st["nb"])) if not isinstance(tot_of(st, k), str)]
+                    for p in table_prefixes(V, t, held, closure):
+                        if p not in factors:
+                            factors[p] = orc.lm_factor_exact(lm_row(lm_spec, V, p, 1 if h0s is None else h0s[n]),
+                                                             lm_spec["valid"], beta_q)
+                        ext = orc.fuse_exact(tok, blank, factors[p], lm_spec["valid"], beta_q)
+                        tab.append([list(p), [frac_str(x) for x in ext]])
                     tables.append(tab)
             el["oracle"] = {"frames": frames, "ext_table": tables if fused else None, "frame_tol": ftol,
                             "mass_tol": frac_str(orc.growth(total, eps_mass)),
@@ -1329,16 +1459,26 @@ class C05(PropertyCheck):
         if "elements" not in obs:
             return None
         els = []
-        for el in obs["elements"]:
-            frames = [{"ext": s["ext"], "nonext": s["tok"], "blank": s["blank"], "sel": s["sel"], "width": s["width"]}
-                      for s in el["steps"]]
+        judge = judge_of(case)
+        for n, el in enumerate(obs["elements"]):
+            if judge["elements"] is not None and n not in judge["elements"]:
+                els.append({"skip": True})      # large batch: this element is judged without Lean
+                continue
+            if judge["model"]:
+                frames = [{"ext": s["ext"], "nonext": s["tok"], "blank": s["blank"], "sel": s["sel"], "width": s["width"]}
+                          for s in el["steps"]]
+            else:
+                # the largest size classes: the array model is not run (specification only)
+                frames = [{"ext": [], "nonext": s["tok"], "blank": s["blank"], "width": s["width"]} for s in el["steps"]]
             keeps = []
             for s in el["steps"][: el["len"]]:
                 o = s["out"]
                 keeps.append([o["prefixes"][k] for k in range(len(o["nb"])) if not isinstance(tot_of(o, k), str)])
-            e = {"len": el["len"], "frames": frames, "keeps": keeps}
+            e = {"len": el["len"], "frames": frames, "keeps": keeps, "model": judge["model"],
+                 "topk": case["stream"] == "exact"}
             if el.get("ext_table") is not None:
                 e["ext_table"] = el["ext_table"]
+                self.check_tables(case, el, el["ext_table"], keeps)
             init = case.get("init")
             if init is not None:
                 den = case.get("denom", 16)
@@ -1353,6 +1493,10 @@ class C05(PropertyCheck):
                              "is_prefix": init["is_prefix"]}
             # true mass by enumeration of all (V+1)^T alignments: only while that is small
             e["mass"] = self.wants_mass(case, el)
+            # ... and of the reported prefixes by the forward algorithm (cross-checked against the enumeration in
+            # the driver whenever both are computed)
+            if judge["dp"] and case.get("init") is None:
+                e["mass_for"] = reported_prefixes(el["result"])
             if el.get("lm_states") is not None:
                 e["lm_h0"] = el["lm_h0"]
             if el.get("lm_factor") is not None:
@@ -1361,9 +1505,25 @@ class C05(PropertyCheck):
                 e["oracle"] = {"frames": el["oracle"]["frames"]}
                 if el["oracle"]["ext_table"] is not None:
                     e["oracle"]["ext_table"] = el["oracle"]["ext_table"]
+                    self.check_tables(case, el, el["oracle"]["ext_table"], keeps)
             els.append(e)
         return {"op": "c05.case", "case": {"fix": not PINNED_MODEL, "V": case["V"], "width": case["width"],
                                            "elements": els}}
+
+    @staticmethod
+    def check_tables(case, el, tables, keeps):
+        """The driver reads a prefix that is missing from a per-prefix table as 'no fusion' (token probability):
+        a table that does not cover what the specification reads would silently judge a fused run by unfused
+        numbers.  Tables that do not list every prefix must cover the beam of every frame and the prefixes of the
+        reported prefixes."""
+        if case.get("init") is not None:
+            return
+        closure = prefix_closure(reported_prefixes(el["result"])) if judge_of(case)["dp"] else set()
+        for t, tab in enumerate(tables[: el["len"]]):
+            have = {tuple(p) for p, _row in tab}
+            need = ({tuple(p) for p in keeps[t - 1]} if t else {()}) | {q for q in closure if len(q) <= t}
+            if not need <= have:
+                raise AssertionError(f"per-prefix table of frame {t} does not cover {sorted(need - have)[:3]}")
 
     @staticmethod
     def wants_mass(case, el):
@@ -1383,11 +1543,13 @@ class C05(PropertyCheck):
             return []
         if "error" in impl or "elements" not in impl:
             return [f"implementation gave {impl.get('error', impl)}"]
-        tol = 0 if case["stream"] == "exact" else TOL[eff_dtype(case)]
+        tol = 0 if case["stream"] == "exact" else tol_of(case)
         floor = floor_of(case)
         out = []
         for n, (a, m) in enumerate(zip(impl["elements"], model["elements"])):
-            mm = m["model"]
+            mm = m.get("model")
+            if mm is None:      # element judged without the array model (size classes)
+                continue
             for t, (sa, sm) in enumerate(zip(a["steps"], mm["steps"])):
                 w = f"n={n} t={t}"
                 self.cmp_state(w + " out", sa["out"], sm["out"], tol, out, floor)
@@ -1406,7 +1568,7 @@ class C05(PropertyCheck):
             if a.get("lm_factor") is not None and mm.get("lm_ext") is not None:
                 # what the module handed to the step function as `ext_probs_t` vs. the Lean model of the fusion
                 # (`lmExt`: fuse(mix = the module's current beta / None, LM factor, tok, blank)) on real slots
-                tl = TOL[eff_dtype(case)]
+                tl = tol_of(case)
                 for t, (sa, em) in enumerate(zip(a["steps"], mm["lm_ext"])):
                     st = sa["in"]
                     ftab = {tuple(p): row for p, row in (a["lm_factor"][t] if t < len(a["lm_factor"]) else [])}
@@ -1462,7 +1624,7 @@ class C05(PropertyCheck):
         widths = case.get("widths") or None
         width = widths[-1] if widths else case["width"]       # slots of the result
         S0 = case["init"]["tm1"] if case.get("init") else 0
-        tol = 0 if case["stream"] == "exact" else TOL[eff_dtype(case)]
+        tol = 0 if case["stream"] == "exact" else tol_of(case)
         floor = floor_of(case)
         dts = ob.get("dtypes")
         lmd = (case.get("lm") or {}).get("dtype")
@@ -1477,7 +1639,7 @@ class C05(PropertyCheck):
         for n, el in enumerate(impl["elements"]):
             res = el["result"]
             probs = [F(x) for x in res["probs"]]
-            spec = model["elements"][n]["spec"] if model is not None else None
+            spec = model["elements"][n].get("spec") if model is not None else None
             if len(probs) != width or len(res["lens"]) != width:
                 fails.append((f"n={n}: {len(probs)} slots for width {width}", "C05.shape"))
                 continue
@@ -1547,7 +1709,7 @@ class C05(PropertyCheck):
                 # no language model (or weight 0) on the object NOW: extension scores are the token probabilities
                 for t, s in enumerate(el["steps"][: el["len"]]):
                     badk = [k for k in range(len(s["in"]["nb"])) if not isinstance(tot_of(s["in"], k), str)
-                            and s["ext"][k] != s["tok"]]
+                            and s["ext"] is not None and s["ext"][k] != s["tok"]]
                     if badk:
                         fails.append((f"n={n}: the module has {'no language model' if lmc is None else 'beta = 0'} but the "
                                       f"extension probabilities of slot {badk[0]} at frame {t} are {s['ext'][badk[0]]}, "
@@ -1695,7 +1857,28 @@ class C05(PropertyCheck):
     def tags(self, case, impl):
         t = [f"kind={case['kind']}", f"stream={case['stream']}", f"V={case['V']}", f"dtype={case['dtype']}"]
         w = case["width"]
-        t.append("width=" + ("1" if w == 1 else "2-6" if w <= 6 else "7-20" if w <= 20 else ">20"))
+        t.append("width=" + ("1" if w == 1 else "2-6" if w <= 6 else "7-20" if w <= 20 else "21-50" if w <= 50 else
+                             "51-100" if w <= 100 else ">100"))
+        wm = max((case.get("widths") or []) + [w] + ([len(case["init"]["nb"])] if case.get("init") else []))
+        t.append("size:K'*K'*V " + c05_size.band(wm * wm * case["V"]))
+        if case["V"] > 3:
+            t.append("size:V " + ("4-33" if case["V"] <= 33 else "64-65" if case["V"] <= 65 else "128-257"))
+        Tn = n_frames(case)
+        if Tn > 8:
+            t.append("size:T " + ("9-64" if Tn <= 64 else "65-128" if Tn <= 128 else "129-300"))
+        if case["kind"] == "module" and Tn and len(case["logits"][0]) > 3:
+            Nn = len(case["logits"][0])
+            t.append("size:N " + ("16-33" if Nn <= 33 else "64-128"))
+            t.append("size:N*K'*V " + c05_size.band(Nn * w * case["V"]))
+        if case["kind"] == "module" and Tn:
+            t.append("size:numel(logits) " + c05_size.band(Tn * len(case["logits"][0]) * (case["V"] + 1)))
+        jd = judge_of(case)
+        if not jd["model"]:
+            t.append("judged:specification only (array model not run)")
+        if jd["elements"] is not None:
+            t.append("judged:sample of the batch through Lean")
+        if not jd["dp"]:
+            t.append("judged:no forward-algorithm mass (long tolerance run)")
         if case.get("expect_error"):
             t.append("malformed")
             return t
@@ -1826,6 +2009,8 @@ class C05(PropertyCheck):
                     c["N"] = 1
                     if case.get("lm") and case["lm"].get("init") is not None:
                         c["lm"] = dict(case["lm"], init=[case["lm"]["init"][n]])
+                    if (case.get("judge") or {}).get("elements") is not None:
+                        c["judge"] = {k: v for k, v in case["judge"].items() if k != "elements"}
                     yield c
             if T > 0:
                 c = dict(case)
@@ -1848,9 +2033,20 @@ class C05(PropertyCheck):
             if case["ext_seed"] is not None:
                 yield dict(case, ext_seed=None)
         if not case.get("widths"):
-            for w in (case["width"] - 1, case["width"] // 2):
+            for w in (case["width"] // 2, case["width"] - 1):
                 if 1 <= w < case["width"]:
                     yield dict(case, width=w)
+        # a smaller vocabulary (size classes): the last token label is dropped, the blank stays the last entry
+        if case["V"] > 3 and not case.get("init"):
+            for V2 in (case["V"] // 2, case["V"] - 1):
+                if V2 < 1 or V2 >= case["V"]:
+                    continue
+                c = dict(case, V=V2)
+                if case["kind"] == "module":
+                    c["logits"] = [[row[:V2] + row[-1:] for row in fr] for fr in case["logits"]]
+                else:
+                    c["frames"] = [{"tok": fr["tok"][:V2], "blank": fr["blank"]} for fr in case["frames"]]
+                yield c
         if case["dtype"] in ("f16", "bf16", "f32") and case["stream"] == "exact":
             yield dict(case, dtype="f64")
 
